@@ -141,7 +141,8 @@ Record stable (I : h11p -> Prop) : Prop := {
   st_events : forall p l, I p -> I (set_events l p);
   st_can_read : forall p b, I p -> I (set_can_read b p);
   st_parked : forall p b, I p -> I (set_parked b p);
-  st_terminated : forall p b, I p -> I (set_terminated b p) }.
+  st_terminated : forall p b, I p -> I (set_terminated b p);
+  st_closed : forall p b, I p -> I (set_closed b p) }.
 
 Lemma nonidle_keep l l' : (is_idle (their_state l') = true -> is_idle (their_state l) = true) ->
   is_idle (their_state l) = false -> is_idle (their_state l') = false.
@@ -190,7 +191,14 @@ Section Stable.
   Proof. eapply tri_conseq; [apply close_stream_post| | |]; cbn; tauto. Qed.
 
   Lemma pres_handle_closed : pres I handle_closed.
-  Proof. unfold handle_closed. apply pres_bind; [apply pres_get|intro p0]. destruct (p_stream_live p0); [apply pres_close_stream|apply pres_ret]. Qed.
+  Proof.
+    unfold handle_closed.
+    apply pres_bind; [apply pres_modify; intros; apply st_closed; assumption|intros ?].
+    apply pres_bind; [apply pres_get|intro p0].
+    apply pres_bind; [destruct (p_stream_live p0); [apply pres_close_stream|apply pres_ret]|intros ?].
+    apply pres_bind; [apply pres_modify; intros; apply st_can_read; assumption|intros ?].
+    apply pres_emit; discriminate.
+  Qed.
 
   Lemma pres_srv_send e : pres I (srv_send e).
   Proof.
@@ -449,7 +457,8 @@ Section Run.
       apply pres_bind; [apply pres_emit; discriminate|intros ?].
       apply pres_bind; [apply pres_modify; intros; apply (st_events _ stable_Serial); assumption|intros ?].
       apply handle_events_pres.
-    - apply pres_step_ok; [|exact Hp]. apply pres_handle_closed, stable_Serial.
+    - apply pres_step_ok; [|exact Hp]. cbn [proto_step].
+      apply pres_bind; [apply pres_handle_closed, stable_Serial|intros ?; apply resume_pres].
     - cbn [proto_step].
       assert (A : pres Serial (match p_slot p with
              | SlotHttp _ => http_app_send (c_http cfg) get_h put_h (stream_send cfg) m
